@@ -523,7 +523,7 @@ func framing(run *vh.Run) {
 		}
 	}
 	// (a') random valid messages of random sizes
-	for i := 0; i < run.Pick(2500, 25000); i++ {
+	for i := 0; i < run.Pick(10000, 60000); i++ {
 		max := maxes[rng.Intn(len(maxes))]
 		n := rng.Intn(int(min(max, 400)) + 1)
 		out := f.write(max, f.randomMsg(n))
@@ -531,7 +531,7 @@ func framing(run *vh.Run) {
 		f.read(max, append(append([]byte{}, out...), tail...), "valid+tail", i%4 == 0)
 	}
 	// (b) Length() that disagrees with len(Payload())
-	for i := 0; i < run.Pick(200, 2000); i++ {
+	for i := 0; i < run.Pick(1000, 6000); i++ {
 		max := maxes[rng.Intn(len(maxes))]
 		n := rng.Intn(int(min(max, 300)) + 3)
 		m := f.randomMsg(n)
@@ -550,7 +550,7 @@ func framing(run *vh.Run) {
 		f.write(max, m)
 	}
 	// (c) truncation at every offset of valid frames
-	for i := 0; i < run.Pick(40, 400); i++ {
+	for i := 0; i < run.Pick(120, 900); i++ {
 		max := []uint32{16, 17, 100, 256}[rng.Intn(4)]
 		n := rng.Intn(int(min(max, 70)) + 1)
 		if i%5 == 0 {
@@ -562,7 +562,7 @@ func framing(run *vh.Run) {
 		}
 	}
 	// (d) hand-made headers: declared length around and far above the limit, payload present / partial / absent
-	for i := 0; i < run.Pick(600, 6000); i++ {
+	for i := 0; i < run.Pick(3000, 18000); i++ {
 		max := maxes[rng.Intn(len(maxes))]
 		var declared uint64
 		switch rng.Intn(8) {
@@ -608,7 +608,7 @@ func framing(run *vh.Run) {
 		f.read(defaultMax, fr, "production-limit", false)
 	}
 	// (e) random byte streams
-	for i := 0; i < run.Pick(3000, 40000); i++ {
+	for i := 0; i < run.Pick(12000, 100000); i++ {
 		max := maxes[rng.Intn(len(maxes))]
 		n := rng.Intn(140)
 		if rng.Chance(1, 10) {
@@ -621,7 +621,7 @@ func framing(run *vh.Run) {
 		f.read(max, bs, "random", i%3 == 0)
 	}
 	// (f) sequences on one connection
-	for i := 0; i < run.Pick(300, 3000); i++ {
+	for i := 0; i < run.Pick(1200, 8000); i++ {
 		max := []uint32{16, 100, 256, 1000}[rng.Intn(4)]
 		var stream []byte
 		k := rng.Intn(6)
@@ -874,7 +874,7 @@ func handshake(run *vh.Run) {
 	conses := []string{"dpos", "raft", "sbp", ""}
 	addrsOK := []string{"192.168.1.2", "dummy.aergo.io", "::1", "2001:db8::1", "localhost", "a.b"}
 	addrsBad := []string{"", "a b", "http://x.y", "1.2.3.4:80", "!!", "-x.com", "x..y"}
-	for i := 0; i < run.Pick(150, 1500); i++ {
+	for i := 0; i < run.Pick(400, 3000); i++ {
 		vm := &fakeVM{base: types.ChainID{Version: int32(rng.Intn(4)), PublicNet: rng.Bool(), MainNet: rng.Bool(),
 			Magic: magics[rng.Intn(len(magics))], Consensus: conses[rng.Intn(len(conses))]}}
 		h := uint64(0)
@@ -1180,7 +1180,7 @@ func errClass(err error) string {
 func blockid(run *vh.Run) {
 	rng := run.Rng
 	// (a) Block.BlockHash: carried field vs digest of the header
-	for i := 0; i < run.Pick(400, 4000); i++ {
+	for i := 0; i < run.Pick(1000, 8000); i++ {
 		b := randomBlock(rng, 0)
 		digest := append([]byte{}, b.Hash...)
 		var carried []byte
@@ -1211,7 +1211,7 @@ func blockid(run *vh.Run) {
 	ctrl := gomock.NewController(reporter{})
 	peerID := newPeerID(rng)
 	knownReported := 0
-	for i := 0; i < run.Pick(1500, 15000); i++ {
+	for i := 0; i < run.Pick(6000, 40000); i++ {
 		n := 1 + rng.Intn(5)
 		if i == 0 {
 			n = 1 // the minimal case first: one block requested, answered with an altered copy carrying the genuine identifier
